@@ -4,3 +4,5 @@ import Beeb.Props.C01
 #print axioms Beeb.Props.C01.C01_body_empty
 #print axioms Beeb.Props.C01.C01_type
 #print axioms Beeb.Props.C01.C01_fields
+#print axioms Beeb.Props.C01.C01_list
+#print axioms Beeb.Props.C01.C01_dump
